@@ -246,14 +246,48 @@ Sweep ==
           /\ Add(<< <<"m", 0, 0>> >> \o r.out \o << <<"m", a, b>> >>, a, b)
   /\ moved' = TRUE
 
+(***************************************************************************)
+(* Number-range sweep: one coordinate delta of exactly 32767, 32768, 32769 *)
+(* (the largest Type 2 number is 32767.99998), 63999 or 64000 (corner to   *)
+(* corner), of either sign, on x, y or both, as a move, a line, two lines  *)
+(* in a row, the first or the last delta of a curve.  Both end points are  *)
+(* inside the coordinate range.                                            *)
+(***************************************************************************)
+SweepDeltas == {32767, 32768, 32769, 63999, 64000}
+DeltaSweep ==
+  /\ Body /\ (SweepOnly \/ FarJumps)
+  /\ MaxG \div GUnit >= 32000                     \* integer configuration only (32-bit arithmetic)
+  /\ SweepOnly => (steps = 0 /\ Len(font) > 0 /\ NStems <= 2)
+  /\ \E d0 \in Pick(SweepDeltas), sg \in Pick({-1, 1}), ax \in Pick({"x", "y", "xy"}),
+        kind \in Pick({"m", "l", "ll", "c1", "c3"}) :
+       LET d  == sg * d0 * GUnit
+           dx == IF ax \in {"x", "xy"} THEN d ELSE 0
+           dy == IF ax \in {"y", "xy"} THEN d ELSE 0
+           sx == -(dx \div 2)   sy == -(dy \div 2)
+           ex == sx + dx        ey == sy + dy
+           u  == GUnit
+           cs == CASE kind = "m"  -> << <<"m", sx, sy>>, <<"m", ex, ey>> >>
+                   [] kind = "l"  -> << <<"m", sx, sy>>, <<"l", ex, ey>>, <<"m", 0, 0>> >>
+                   [] kind = "ll" -> << <<"m", sx, sy>>, <<"l", ex, ey>>, <<"l", sx, sy>>, <<"m", 0, 0>> >>
+                   [] kind = "c1" -> << <<"m", sx, sy>>,
+                                        <<"c", ex, ey, ex - 5 * sg * u, ey - 5 * sg * u, ex - 9 * sg * u, ey - sg * u>>,
+                                        <<"m", 0, 0>> >>
+                   [] kind = "c3" -> << <<"m", sx + 9 * sg * u, sy + sg * u>>,
+                                        <<"c", sx + 5 * sg * u, sy + 5 * sg * u, sx, sy, ex, ey>>,
+                                        <<"m", 0, 0>> >>
+           last == cs[Len(cs)]
+       IN /\ \A i \in 1..Len(cs) : \A j \in 2..Len(cs[i]) : InRange(cs[i][j])
+          /\ Add(cs, last[2], last[3])
+  /\ moved' = TRUE
+
 EndGlyph ==
   /\ st = "body"
-  /\ SweepOnly => (steps = 1 \/ Len(font) = 0)      \* the first glyph (.notdef) stays empty
+  /\ SweepOnly => (steps = MaxSteps \/ Len(font) = 0)      \* the first glyph (.notdef) stays empty
   /\ font' = Append(font, g) /\ g' = G0
   /\ st' = IF Len(font) + 1 = ng THEN "done" ELSE "new"
   /\ UNCHANGED <<x, y, steps, ng, wp, moved>>
 
-Next == StartGlyph \/ Mask \/ Move \/ Far \/ Line \/ Curve \/ FlexPair \/ Run \/ Sweep \/ EndGlyph
+Next == StartGlyph \/ Mask \/ Move \/ Far \/ Line \/ Curve \/ FlexPair \/ Run \/ Sweep \/ DeltaSweep \/ EndGlyph
 Spec == Init /\ [][Next]_vars
 
 (***************************************************************************)
